@@ -418,6 +418,23 @@ def run(ctx, rep):
                       'when slots are skipped the long-name accumulator and the entry\'s slot range must be reset '
                       'together', detail[:3])
 
+    # ---------------- T3c every slot that does not end the call either extends the run or discards it
+    procs = [b for b, t in R.calls() if (t.get('callee') or '').endswith('LongNameBuilder::process')]
+    reads_ = [b for b, t in R.calls() if (t.get('callee') or '').endswith('DirEntryData::deserialize')]
+    ok_c = bool(procs) and bool(clears)
+    for tail, head in R.back_edges():
+        body_ = R.natural_loop(tail, head)
+        if not any(r_ in body_ for r_ in reads_):
+            continue
+        reach_ = R.reach_from([head], cut_blocks=set(procs) | set(clears))
+        if tail in reach_:
+            ok_c = False
+    rep.oblige('T3c', READER, ok=ok_c, nontrivial=True, sample={'fn': READER, 'process_sites': len(procs), 'clear_sites': len(clears)})
+    if not ok_c:
+        rep.violation('T3', vkey('T3', READER, 'slot-neither-kept-nor-dropped', ''), R.loc(R.span),
+                      'the directory reader can go on to the next slot without having handed the current one to the long-name '
+                      'accumulator or having cleared the accumulator: a run is glued together across a slot that does not belong to it')
+
     # ---------------- T4 progress
     reads = [b for b, t in R.calls() if (t.get('callee') or '').endswith('DirEntryData::deserialize')]
     ok = bool(reads)
